@@ -24,6 +24,8 @@ CONFIGS = {
     "nodebug": ["-DEVENT__DISABLE_DEBUG_MODE"],
     "nomm": ["-DEVENT__DISABLE_MM_REPLACEMENT"],
 }
+for _a in ("reinsert", "nodebug", "nomm"):
+    CONFIGS["assert+" + _a] = CONFIGS["assert"] + CONFIGS[_a]
 
 
 class AnalysisBroken(Exception):
@@ -102,3 +104,19 @@ def extract(units=None, config="build", repo=REPO, db=None):
         with open(p) as fh:
             facts[u] = json.load(fh)
     return facts
+
+
+def extract_snippet(path, db=None, like_unit="event", config="build"):
+    """Parse a self-test C snippet (under /verif/selftest) with the flags of a library unit."""
+    if db is None:
+        db = compdb()
+    outdir = os.path.join(BUILD, "facts", "selftest")
+    os.makedirs(outdir, exist_ok=True)
+    out = os.path.join(outdir, os.path.basename(path) + ".json")
+    root = os.path.dirname(path)
+    r = subprocess.run([LVX, out, root, path, "--"] + db[like_unit] + CONFIGS[config],
+                       stdout=subprocess.PIPE, stderr=subprocess.PIPE)
+    if r.returncode != 0 or not os.path.exists(out):
+        raise AnalysisBroken("lvx failed on snippet %s: %s" % (path, r.stderr.decode()[-1500:]))
+    with open(out) as fh:
+        return {os.path.basename(path): json.load(fh)}
